@@ -111,26 +111,51 @@ def w1(model: Model, rep: Report):
     rep.check(ok, "C18.W1", "OffsetTransformConstructor.identifier_to_pivot", f2.loc, found=show(v), required="x = default.x + offset * duration, y = default.y", what="offset drawing moves an operation to another row or outside its slot", detail="offset")
     # factories: who calls construct_transform with what
     n_sites = 0
-    n_fact = 0
+    fns = []
     for suffix in FACTORY_MODULES:
         m = model.module(suffix)
         for C in m.classes.values():
             for fs in C.methods.values():
-                for fn in fs:
-                    sites = [n for n in ast.walk(fn.node) if isinstance(n, ast.Call) and isinstance(n.func, ast.Attribute) and n.func.attr == "construct_transform"]
-                    if not sites:
-                        continue
-                    n_fact += 1
-                    for call in sites:
-                        n_sites += 1
-                        kw = {k.arg: k.value for k in call.keywords}
-                        tcv = kw.get("time_component", call.args[1] if len(call.args) > 1 else None)
-                        idv = kw.get("identifier", call.args[0] if call.args else None)
-                        ok, why = _factory_site_ok(fn, call, tcv, idv)
-                        rep.check(ok, "C18.W1", f"{fn.qualname}[construct_transform]", f"{fn.module.relpath}:{call.lineno}", found=norm_stmt(call) if ok else why, required="identifier and time component both taken from the drawn operation",
-                                  what="a draw component is positioned with another operation's time or channel: " + why, detail="factory:" + (why or "ok"))
-    rep.floor("construct_transform call sites in draw factories", n_sites, 24)
-    rep.floor("draw factories deriving transforms", n_fact, 20)
+                fns.extend(fs)
+        fns.extend(m.functions.values())          # helpers shared by several factories position components as well
+    has_site = {}
+    for fn in fns:
+        sites = [n for n in ast.walk(fn.node) if isinstance(n, ast.Call) and isinstance(n.func, ast.Attribute) and n.func.attr == "construct_transform"]
+        has_site[fn] = bool(sites)
+        for call in sites:
+            n_sites += 1
+            kw = {k.arg: k.value for k in call.keywords}
+            tcv = kw.get("time_component", call.args[1] if len(call.args) > 1 else None)
+            idv = kw.get("identifier", call.args[0] if call.args else None)
+            ok, why = _factory_site_ok(fn, call, tcv, idv)
+            rep.check(ok, "C18.W1", f"{fn.qualname}[construct_transform]", f"{fn.module.relpath}:{call.lineno}", found=norm_stmt(call) if ok else why, required="identifier and time component both taken from the drawn operation",
+                      what="a draw component is positioned with another operation's time or channel: " + why, detail="factory:" + (why or "ok"))
+    # factories that position their component through a shared helper: the helper's sites were checked above; the factory must hand ITS operation to the helper
+    by_name = {}
+    for fn in fns:
+        by_name.setdefault(fn.name, []).append(fn)
+    reach = {fn for fn, v in has_site.items() if v}
+    changed = True
+    while changed:
+        changed = False
+        for fn in fns:
+            if fn in reach:
+                continue
+            for n in ast.walk(fn.node):
+                if isinstance(n, ast.Call):
+                    nm = n.func.attr if isinstance(n.func, ast.Attribute) else (n.func.id if isinstance(n.func, ast.Name) else None)
+                    if nm and any(g in reach for g in by_name.get(nm, [])):
+                        reach.add(fn)
+                        changed = True
+                        # the operation handed on is the caller's own operation parameter
+                        op_params = [a.arg for a in fn.node.args.args if a.arg == "operation"]
+                        passed = {k.arg: k.value for k in n.keywords}.get("operation", n.args[0] if n.args else None)
+                        if op_params and not (isinstance(passed, ast.Name) and passed.id == "operation"):
+                            rep.fail("C18.W1", f"{fn.qualname}[{nm}]", f"{fn.module.relpath}:{n.lineno}", found=norm_stmt(n), required="the drawn operation itself is handed to the positioning helper",
+                                     what="a draw component is positioned with another operation than the one it draws", detail="factory:helper-arg")
+                        break
+    n_fact = len([fn for fn in reach if fn.cls is not None and fn.name == "construct"])
+    rep.floor("draw factories that position their component from the drawn operation", n_fact, 20)
     rep.analysed["C18.W1 construct_transform call sites"] = n_sites
     # bars / headers
     V = model.cls("VisualCircuitDescription")
